@@ -60,7 +60,7 @@ def ops_table():
     npool = NumPool()
     K = pool.K
     idenc = lambda v: gz(pool.id(v))
-    Z = dict(ty="Z", eqb="Z.eqb", enc=idenc)
+    Z = dict(ty="Z", eqb="Z.eqb", enc=idenc, poolvals=True)
     ZN = dict(ty="Z", eqb="Z.eqb", enc=lambda v: gz(v), pool=npool)
     BOOL = dict(ty="bool", eqb="Bool.eqb", enc=gbool)
     T = {}
